@@ -302,7 +302,7 @@ func regoC02(c *checkCtx) {
 		}
 		return n
 	}
-	outs, err := runPaths(regoWork(c), paths, []string{"set", "nodes", "array"}, nFor, 2, 16)
+	outs, err := runPaths(regoWork(c), paths, []string{"set", "nodes", "array"}, nFor, 2, 16, c.knownSignatures("C02.set-eq-denotation"))
 	if err != nil {
 		c.inconclusive("regosym: " + err.Error())
 		return
